@@ -189,7 +189,17 @@ def r06_3(ctx: Ctx) -> None:
         if not isinstance(cnt, ast.Name):
             ctx.fail("R06.3", f, c, "the number of substream digests is not a counted local")
             continue
-        incs = [x for x in walk(f.node) if isinstance(x, ast.AugAssign) and norm(x.target) == cnt.id]
+        names = {cnt.id} | {n.id for s_ in q.sources_of(f, cnt, depth=3) for n in ast.walk(s_) if isinstance(n, ast.Name)}
+        incs = [x for x in walk(f.node) if isinstance(x, ast.AugAssign) and isinstance(x.target, ast.Name) and x.target.id in names
+                and not (isinstance(x.value, ast.Constant))]
+        # of several counters reaching the vector size, the one that is actually passed must be the guarded one
+        direct = [x for x in incs if x.target.id == cnt.id] or incs
+        srcs0 = q.assigned_values(f, cnt.id)
+        if srcs0 and not [x for x in incs if x.target.id == cnt.id]:
+            first = srcs0[0]
+            if isinstance(first, ast.Tuple) and False:
+                pass
+        incs = direct if [x for x in incs if x.target.id == cnt.id] else incs
         ok = bool(incs) and all(any("digestdefined" in norm(cd) for cd, pol in q.facts_at(f, i)) for i in incs)
         ctx.check(ok, "R06.3", f, c, "substream digest vector excludes single-stream folders that carry a folder CRC",
                   f"the SubStreamsInfo digest vector is sized by `{cnt.id}`, which also counts single-stream folders whose digest is the folder CRC: "
@@ -256,7 +266,7 @@ def r06_4(ctx: Ctx) -> None:
             ctx.check(ok, "R06.4", f, n, f"{fq}: {norm(subj)} dereferenced under a not-None guard",
                       f"{norm(subj)} is dereferenced without a not-None guard although it is {NULLABLE_ON_VALID[key]}: a valid archive makes this call raise "
                       "AttributeError instead of being read", construct=norm(n), path=ctx.res.call_path(shared.read_roots(ctx), fq))
-    ctx.floor("R06.4", n_sites, 8, "dereferences of nullable header sections in the read closure")
+    ctx.floor("R06.4", n_sites, 4, "dereferences of nullable header sections in the read closure")
     ctx.check(True, "R06.4", sr, sr.node, f"SubStreamsInfo materialised when absent: {materialised}", "")
 
 
